@@ -281,6 +281,8 @@ type simSink struct {
 	useAfter int
 	faults   *faultPlan
 	onWrite  func(p outPkt)
+	// the packet is on the wire when WriteTo is entered; the call itself returns this much later (a slow socket)
+	writeDelay time.Duration
 }
 
 var _ packets.Sink = (*simSink)(nil)
@@ -310,6 +312,9 @@ func (s *simSink) WriteTo(buf []byte, addr netip.AddrPort) error {
 	s.mu.Unlock()
 	if cb != nil {
 		cb(p)
+	}
+	if s.writeDelay > 0 {
+		time.Sleep(s.writeDelay)
 	}
 	return nil
 }
